@@ -582,9 +582,9 @@ func runAdmServer(name string, k int, conc int, rnd *vk.Rand, nextID *int, perCo
 				case 0:
 					c.J[i] = 0
 				case 1:
-					c.J[i] = 1
-				default:
 					c.J[i] = rnd.Intn(4)
+				default:
+					c.J[i] = 1
 				}
 			}
 			all = append(all, c)
@@ -715,7 +715,7 @@ func middlewareMain(args []string) error {
 	maxLen := fs.Int("maxlen", 3, "max chain length")
 	conc := fs.Int("conc", 8, "concurrent sessions")
 	perConn := fs.Int("perconn", 3, "rejected attempts per connection before an accepted one")
-	joinVariants := fs.Int("joinvariants", 3, "join patterns per vector (none, all, random...)")
+	joinVariants := fs.Int("joinvariants", 3, "join patterns per vector (none, random, Join(r_i))")
 	n := fs.Int("n", 0, "case limit (admgo)")
 	outp := fs.String("out", "-", "")
 	fs.Parse(args)
